@@ -34,9 +34,10 @@ fn edge_key(scheme: Scheme, pk: &[u8]) -> bool {
 
 impl<'a> Visitor for V<'a> {
     fn step<K: Fam>(&mut self, cx: &StepCx<K>) -> Result<(), String> {
-        if self.stop || !cx.res.is_ok() {
+        if self.stop || matches!(cx.res, crate::exec::CallRes::Panic(_) | crate::exec::CallRes::DecodeErr(_)) {
             return Ok(());
         }
+        // (also after a failed call: the record the caller still holds must keep its node id = f(key))
         let (post, enr) = match (cx.post, cx.enr) {
             (Some(p), Some(e)) => (p, e),
             _ => return Ok(()),
@@ -53,7 +54,7 @@ impl<'a> Visitor for V<'a> {
         if pk.len() == 65 {
             return Ok(());
         }
-        let want = node_id_of(scheme, &pk).ok_or_else(|| format!("{d}: record carries an invalid public key"))?;
+        let want = node_id_for(fam, scheme, &pk).ok_or_else(|| format!("{d}: record carries an invalid public key"))?;
         if post.node_id != want {
             return Err(format!(
                 "{d}: node id {} is not keccak256 of the stored public key ({})",
@@ -71,7 +72,7 @@ impl<'a> Visitor for V<'a> {
             return Err(format!("{d}: NodeId::from(&enr) differs from node_id()"));
         }
         // uncompressed form agrees with the independent decompression
-        if scheme == Scheme::Secp {
+        if scheme == Scheme::Secp && fam != FamId::Tiny {
             let u = crypto::secp_uncompressed(&pk).unwrap();
             if post.pk_unc.as_ref().ok().map(|v| v.as_slice()) != Some(&u[..]) {
                 return Err(format!("{d}: encode_uncompressed() differs from the independent decompression"));
@@ -99,7 +100,7 @@ impl<'a> Visitor for V<'a> {
                 return Err(format!("{d}: node id changed under an update made with the same key"));
             }
         }
-        if edge_key(scheme, &pk) || matches!(cx.h.init, Init::Decoded { .. }) {
+        if (fam != FamId::Tiny && edge_key(scheme, &pk)) || matches!(cx.h.init, Init::Decoded { .. }) {
             self.nontrivial = true;
         }
         Ok(())
